@@ -1,8 +1,12 @@
 package main
 
 import (
+	"bytes"
 	"fmt"
+	"os"
+	"os/user"
 	"path/filepath"
+	"strconv"
 	"strings"
 	"sync"
 )
@@ -171,6 +175,46 @@ func runMeta(r *run) error {
 		}(j)
 	}
 	wg.Wait()
+	// owner and group by name: a hand-written sender lists ids with names
+	if nb, err1 := user.Lookup("nobody"); err1 == nil {
+		if ng, err2 := user.LookupGroup("nogroup"); err2 == nil {
+			wantU, _ := strconv.Atoi(nb.Uid)
+			wantG, _ := strconv.Atoi(ng.Gid)
+			for _, side := range []string{"client", "daemon"} {
+				id := "meta-idnames-" + side
+				dest := filepath.Join(base, id)
+				os.MkdirAll(dest, 0o755)
+				var after bytes.Buffer
+				refEncodeIDs(&after, []idname{{4242, []byte("nobody")}, {5151, []byte("no-such-user-zzz")}})
+				refEncodeIDs(&after, []idname{{4343, []byte("nogroup")}, {5252, []byte("no-such-group-zzz")}})
+				after.Write(le32(0))
+				file := func(n string, u, gid int32) hEntry {
+					return hEntry{NameHex: hx(n), Mode: sIFREG | 0o644, Len: 4, Mtime: 1_500_000_000, DataHex: hx("data"), Uid: u, Gid: gid}
+				}
+				sp := sessionSpec{Kind: "hostile", ID: id, Args: []string{"-rlptgo"}, Dest: dest, TimeoutMs: 20000,
+					Hostile: &hostileSpec{Target: side, Seed: 9, AfterFlist: fmt.Sprintf("%x", after.Bytes()), Entries: []hEntry{
+						{NameHex: hx("."), Mode: sIFDIR | 0o755, Len: 4096, Mtime: 1_500_000_000},
+						file("byname", 4242, 4343), file("unknownname", 5151, 5252), file("notlisted", 6161, 6262)}}}
+				res := pool.run(sp)
+				got := takeSnapshot(dest)
+				r.count("idnames/" + side + "/" + res.Outcome)
+				r.emit("noop", id, []string{side}, "ok", true)
+				detail := map[string]any{"side": side, "err": res.Err, "log": res.Log, "dest": got.canon("to"), "local_nobody": wantU, "local_nogroup": wantG}
+				if res.Outcome != "ok" {
+					r.oracleFail(id, "session with id lists did not succeed: "+res.Err, detail)
+					continue
+				}
+				for _, w := range []struct {
+					n    string
+					u, g int
+				}{{"byname", wantU, wantG}, {"unknownname", 5151, 5252}, {"notlisted", 6161, 6262}} {
+					if e := got[w.n]; int(e.Uid) != w.u || int(e.Gid) != w.g {
+						r.oracleFail(id, fmt.Sprintf("%s: owner %d:%d, expected %d:%d (ids listed with a locally known name map to the local id, others are kept)", w.n, e.Uid, e.Gid, w.u, w.g), detail)
+					}
+				}
+			}
+		}
+	}
 	r.emit("noop", "meta-summary", []string{fmt.Sprint(len(jobs))}, "ok", true)
 	r.notes["sessions"] = len(jobs)
 	return nil
